@@ -536,7 +536,28 @@ func c07forall(c *Ctx, sr *schedRoles, fn *ssa.Function, what string) {
 	r, p := c.R, sr.p
 	key := p.FnKey(fn)
 	var problems []string
-	if what == "zero" && rangesOver(fn, func(v ssa.Value) bool { return p.isFieldLoad(v, "actual") }) == nil {
+	overActual := func(v ssa.Value) bool {
+		if p.isFieldLoad(v, "actual") {
+			return true
+		}
+		// a plain function over a map parameter: every call site hands it the `actual` map
+		par, isPar := v.(*ssa.Parameter)
+		if !isPar {
+			return false
+		}
+		sites := p.CallSites(par.Parent())
+		if len(sites) == 0 {
+			return false
+		}
+		for _, cs := range sites {
+			idx := paramIndex(par.Parent(), par)
+			if idx < 0 || idx >= len(cs.Common().Args) || !p.isFieldLoad(cs.Common().Args[idx], "actual") {
+				return false
+			}
+		}
+		return true
+	}
+	if what == "zero" && rangesOver(fn, overActual) == nil {
 		r.Fail("E3", key, p.Pos(fn.Pos()), "the nothing-in-flight predicate does not range over the whole `actual` map: counters of priorities outside the set it visits (e.g. a removed input with items still in flight) are ignored and termination is signalled while items are unreleased")
 		return
 	}
